@@ -44,6 +44,47 @@ Qed.
 Lemma properties_cbor_plain value chunks err : properties_cbor value None chunks err = Some value.
 Proof. reflexivity. Qed.
 
+(* completeness: a stream that ends normally within the bound is returned whole *)
+Lemma decompress_loop_complete max chunks : forall acc,
+  Forall (fun c => c <> []) chunks -> lenN acc + lenN (concat chunks) <= max ->
+  decompress_loop max acc chunks false = Some (acc ++ concat chunks).
+Proof.
+  induction chunks as [|c r IH]; intros acc HF H; cbn [decompress_loop concat].
+  - rewrite app_nil_r. reflexivity.
+  - inversion HF as [|? ? Hc Hr]; subst. destruct c as [|x c]; [congruence|]. cbn [is_nil].
+    cbn [concat] in H. unfold lenN in H. rewrite app_length in H.
+    destruct (N.ltb_spec max (lenN acc + lenN (x :: c))) as [Hlt|_]; [unfold lenN in Hlt; lia|].
+    rewrite IH; [rewrite <- app_assoc; reflexivity|exact Hr|unfold lenN; rewrite app_length; lia].
+Qed.
+
+(* what the encoder accepts, the decoder's bound admits *)
+Lemma compress_accepts_bound len clen : compress_accepts len clen = true -> len <= decompress_max clen.
+Proof.
+  unfold compress_accepts, decompress_max. intros H. apply andb_true_iff in H. destruct H as [H1 H2].
+  apply N.leb_le in H1. apply N.leb_le in H2. lia.
+Qed.
+
+(* the length-only loop is the length of the byte-level loop *)
+Lemma decompress_len_spec max chunks err : forall acc,
+  decompress_len max (lenN acc) (map (@lenN N) chunks) err = option_map (@lenN N) (decompress_loop max acc chunks err).
+Proof.
+  induction chunks as [|c r IH]; intros acc; cbn [map decompress_len decompress_loop].
+  - destruct err; reflexivity.
+  - destruct c as [|x c].
+    + reflexivity.
+    + cbn [is_nil]. assert (lenN (x :: c) =? 0 = false) as -> by (apply N.eqb_neq; unfold lenN; cbn [length]; lia).
+      destruct (max <? lenN acc + lenN (x :: c)); [reflexivity|].
+      replace (lenN acc + lenN (x :: c)) with (lenN (acc ++ x :: c)) by (unfold lenN; rewrite app_length; lia).
+      apply IH.
+Qed.
+
+Lemma properties_cbor_len_spec value enc chunks err :
+  properties_cbor_len (lenN value) enc (map (@lenN N) chunks) err = option_map (@lenN N) (properties_cbor value enc chunks err).
+Proof.
+  unfold properties_cbor_len, properties_cbor. destruct enc as [e|]; [|reflexivity].
+  destruct (bytes_eqb e BROTLI); [|reflexivity]. apply (decompress_len_spec _ chunks err []).
+Qed.
+
 (* ------------------------------------------------------------------ candidate choice *)
 
 Lemma first_min_spec lens : forall bi b i,
